@@ -2,11 +2,11 @@
 
 ACTOR_EXT = {
     "self.send": dict(event="send"),
-    "self.createActor": dict(event="createActor", returns="any", ensures=["result != 0"]),
+    "self.createActor": dict(event="createActor", returns="any", ensures=["not isnone(result)"]),
     "self.wakeupAfter": dict(event="wakeupAfter"),
     "self.notifyOnSystemRegistrationChanges": dict(event="notify"),
     "console.info": dict(drop=True),
-    "thespian.actors.ActorExitRequest": dict(returns="any", ensures=["result != 0"]),
+    "thespian.actors.ActorExitRequest": dict(returns="any", ensures=["not isnone(result)"]),
 }
 RA = {"BenchmarkFailure.message": "any", "BenchmarkFailure.cause": "any", "RallyActor.children": "list[any]", "RallyActor.received_responses": "list[any]", "RallyActor.status": "opt[str]", "RallyActor.logger": "any"}
 
@@ -59,7 +59,7 @@ MA_START = dict(
             "extract_all_node_ids": dict(uf="EIDS", returns="any", pure=True),
         },
     ),
-    requires=["msg.cfg != 0 and sender != 0"],
+    requires=["not isnone(msg.cfg) and not isnone(sender)"],
     ensures=[
         "self.race_control == sender",
         # an externally provisioned cluster is never started: no Dispatcher, race control is told at once
@@ -118,7 +118,7 @@ MA_NODES_STARTED = dict(
     fields=MA,
     externals=dict(ACTOR_EXT, **{"self.children.insert": dict(returns="none", modifies_args=[], drop_children=True)}),
     inline=["RallyActor.is_current_status_expected"],
-    requires=["len(self.children) >= 1 and ref(self.children) != ref(self.received_responses) and sender != 0"],
+    requires=["len(self.children) >= 1 and ref(self.children) != ref(self.received_responses) and not isnone(sender)"],
     ensures=[
         # race control hears EngineStarted only with the acknowledgement that completes the set of hosts
         "implies(old(len(self.received_responses)) + 1 < len(self.children), nev() == 0)",
@@ -167,7 +167,7 @@ CONV = dict(
     fields=DP,
     externals=ACTOR_EXT,
     any_not_callable=True,
-    requires=["implies(convmsg.remoteAdded, has(self.remotes, convmsg.remoteCapabilities.get('ip', None)))", "self.start_sender != 0"],
+    requires=["implies(convmsg.remoteAdded, has(self.remotes, convmsg.remoteCapabilities.get('ip', None)))", "not isnone(self.start_sender)"],
     loops={
         0: dict(
             modifies_objs=["self.pending"],
